@@ -52,7 +52,8 @@ def c11_case(ctx: Ctx, case: dict):
         ode1 = common.load(saved)
     except Exception as ex:
         bad = next((ln for ln in saved.splitlines() if not ctx.lean().call({"op": "parse", "text": ln + "\n"}).get("ok")), "")
-        kind = "E" if " E" in bad or "E*" in bad or "(E" in bad else ("Ne" if "Ne(" in bad else "other")
+        kind = ("constant-condition" if ("Conditional(0," in saved or "Conditional(1," in saved) else "ITE" if "ITE(" in saved else "E" if (" E" in bad or "E*" in bad or "(E" in bad) else "Ne" if "Ne(" in bad
+                else "tilde" if "~" in saved else "other")
         ctx.violate(f"C11/reload-rejected/{type(ex).__name__}/{kind}", f"the saved file is rejected by the loader: {type(ex).__name__}: {str(ex)[:90]}",
                     case=case, saved=saved)
         return
@@ -85,6 +86,7 @@ def c11_case(ctx: Ctx, case: dict):
         return
     lay0 = b0.layout
     pts = case.get("points") or ns.points_for(ctx, rm, ctx.n(3, 5), dts=(0.01, 0.1))
+    pts = list(pts) + oracle.boundary_points(rm, pts[0]) if pts else pts
     for pi, pt in enumerate(pts):
         us = rm.usable(pt, ctx.seed * 1000 + pi)
         if us is None:
@@ -120,7 +122,7 @@ def c11_case(ctx: Ctx, case: dict):
 
 
 def c11_cfg(ctx, k):
-    cfg = gen.ModelCfg(depth=3, max_comps=3)
+    cfg = gen.ModelCfg(depth=3, max_comps=3, p_shared=0.5)
     cfg.expr = gen.ExprCfg(p_cond=0.15, p_ccond=0.04, p_mod=0.03, p_floor=0.03, p_logic=0.6)
     return cfg
 
@@ -419,24 +421,38 @@ PLAIN_TERMS = ["{x}*p", "exp(-{x})", "cos({x}) + p"]
 
 def c16_gen(ctx: Ctx):
     rng = ctx.rng
-    nsing = rng.choice([0, 1, 1, 2, 2, 3])
+    nsing = rng.choice([0, 1, 1, 1, 2, 2, 3])
     two_states = rng.random() < 0.4
-    terms, sing_points = [], []
+    terms, sing_points, pre = [], [], []
     avail_a = [1, 2, 3]
     rng.shuffle(avail_a)
     for i in range(nsing):
         t, at = rng.choice(SING_TERMS)
         x = "y" if (two_states and rng.random() < 0.5) else "x"
         a = avail_a[i % 3]
-        terms.append(t.format(x=x, a=a))
-        sing_points.append((x, float(at.format(a=a))))
+        if rng.random() < 0.35 and at == "0":
+            # the singular variable is an intermediate that is a shifted state: u = x - a, singular at u = 0
+            u = f"u{i}"
+            pre.append(f"{u} = {x} - {a}")
+            terms.append(t.format(x=u, a=a))
+            sing_points.append((x, float(a)))
+        else:
+            terms.append(t.format(x=x, a=a))
+            sing_points.append((x, float(at.format(a=a))))
     if rng.random() < 0.3:
         terms.append(rng.choice(POLE_TERMS).format(x="x", a=7))
     if rng.random() < 0.6 or not terms:
         terms.append(rng.choice(PLAIN_TERMS).format(x="x"))
     op = " + " if rng.random() < 0.7 else " * "
     expr = op.join(f"({t})" for t in terms) if op == " * " else " + ".join(terms)
-    text = f"states(x=0.5, y=0.25)\nparameters(p=1.5)\nz = {expr}\ndx_dt = z - x\ndy_dt = -y\n"
+    body = "\n".join(pre + [f"z = {expr}"])
+    layout = rng.choice(["flat", "flat", "split", "split"])
+    if layout == "flat":
+        text = f"states(x=0.5, y=0.25)\nparameters(p=1.5)\n{body}\ndx_dt = z - x\ndy_dt = -y\n"
+    else:
+        # the singular expression lives in another component than the states it is singular in
+        text = (f'states("Membrane", x=0.5, y=0.25)\nparameters("Membrane", p=1.5)\nexpressions("Membrane")\ndx_dt = z - x\ndy_dt = -y\n'
+                f'expressions("Rates")\n{body}\n')
     return {"text": text, "sing": sing_points, "nsing": nsing}
 
 
@@ -499,7 +515,7 @@ def c16_case(ctx: Ctx, case: dict):
             base = rm.base(pt)
             base[xn] = mpf(x0) + sgn * h
             try:
-                vals.append(hp.ev(rm.assigns["z"], base))
+                vals.append(sexp.eval_model(rm.assigns, rm.order, base)["z"])
             except Exception:
                 vals.append(None)
         if None in vals or not all(mpmath.isfinite(v) for v in vals) or abs(vals[0] - vals[1]) > mpf("1e-9") * (abs(vals[0]) + 1):
@@ -516,7 +532,7 @@ def c16_case(ctx: Ctx, case: dict):
 
 
 def c16_run(ctx: Ctx):
-    for k in range(ctx.n(14, 300)):
+    for k in range(ctx.n(45, 600)):
         case = c16_gen(ctx)
         with common.time_limit(ctx, 120):
             c16_case(ctx, case)
